@@ -270,6 +270,29 @@ func (e *hashEngine) paths(g *key.Group, dir string) {
 	} else {
 		chk("groupfile", nil, fmt.Errorf("load: %v", err))
 	}
+	// group files in which an optional key is absent (legacy / hand-written files): the chain hash
+	// of the loaded group must be the chain hash of the same group built in memory
+	if vars, err := groupFileVariants(g); err == nil {
+		for k, v := range vars {
+			e.rep.Count("path/groupfile-without-" + v.key)
+			mem := chain.NewChainInfo(cloneGroup(v.expect)).Hash()
+			got, err := loadGroupFile(dir, fmt.Sprintf("opt%d", k), v.text)
+			fin := map[string]interface{}{"path": "group file without " + v.key, "group_file": v.text, "hash_in_memory": hex.EncodeToString(mem)}
+			for kk, x := range in {
+				fin[kk] = x
+			}
+			if err != nil || got.PublicKey == nil {
+				fin["error"] = errClass(err)
+				e.rep.Fail("C17-hash-differs-across-encoding-paths", "a group file without the optional key "+v.key+" does not load, so the chain hash cannot be recomputed from it", fin)
+				continue
+			}
+			if h := chain.NewChainInfo(got).Hash(); !bytes.Equal(h, mem) {
+				fin["hash_from_file"] = hex.EncodeToString(h)
+				fin["loaded_genesis_seed_hex"] = hex.EncodeToString(got.GenesisSeed)
+				e.rep.Fail("C17-hash-differs-across-encoding-paths", "the chain hash of the group loaded from a file without "+v.key+" differs from the chain hash of the same group in memory", fin)
+			}
+		}
+	}
 	// group protobuf
 	gp := cloneGroup(g).ToProto(common.GetAppVersion())
 	g4, err := key.GroupFromProto(gp, nil)
